@@ -50,7 +50,7 @@ func vC12HExecClassesAbout(c *vRHCfg, ch uint64) []string {
 	if ch == c.Dest {
 		return []string{"nonces", "costly", "disc-dest", "commitreports"}
 	}
-	return []string{"messages", "messages", "tokendata", "tokendata", "disc-own", "messages-empty"}
+	return []string{"messages", "messages", "tokendata", "tokendata", "disc-own", "messages-empty", "tokendata-empty", "cross", "cross"}
 }
 
 func vC12HInOracles(c *vRHCfg, o int) bool {
